@@ -75,6 +75,9 @@ pub fn replay_case<H: HB>(c: &Case) -> Result<(), String> {
     if c.probe.as_deref() == Some("drop-accounting-plain-priorities") {
         return crate::probes::drop_accounting_plain().map(|_| ());
     }
+    if c.probe.as_deref() == Some("type-matrix") {
+        return crate::typed::replay_case(c);
+    }
     if c.probe.as_deref() == Some("big-equality-hashers") {
         if let Root::FromVec(pairs) = &c.root {
             return crate::props::big_equality_hashers(pairs, c.double);
